@@ -217,6 +217,8 @@ fn dist_step<const VIA_FRIENDS: bool>() {
 #[kani::stub(crate::inflate::inflate_fast_help, stub_fast_unreachable)]
 #[kani::stub(crate::inflate::writer::Writer::copy_match, stub_copy_match_unreachable)]
 #[kani::stub(crate::inflate::writer::Writer::extend_from_window, stub_efw_unreachable)]
+#[kani::stub(crate::inflate::State::len_and_friends, stub_laf_suspends)]
+#[kani::stub(<[u16]>::fill, stub_fill_unreachable)]
 fn ki5d_dist_step_dispatch() {
     dist_step::<false>();
 }
